@@ -121,6 +121,16 @@ def run(replay=None):
     cases, truth = [], {}
     classes = {}
     for k, (n, p, m, P, c, A, b, G, h, lb, ub, kind) in enumerate(raw):
+        if rng.random() < 0.3:
+            # an equivalent, badly scaled problem: x_j = s_j x'_j (the class is invariant; it is re-decided exactly below)
+            sc = [rng.choice([F(1), F(100), F(1, 32), F(64)]) for _ in range(n)]
+            P = [[F(P[i][j]) * sc[i] * sc[j] for j in range(n)] for i in range(n)]
+            c = [F(c[j]) * sc[j] for j in range(n)]
+            A = [[F(A[i][j]) * sc[j] for j in range(n)] for i in range(p)]
+            G = [[F(G[i][j]) * sc[j] for j in range(n)] for i in range(m)]
+            lb = [None if v is None else F(v) / sc[j] for j, v in enumerate(lb)]
+            ub = [None if v is None else F(v) / sc[j] for j, v in enumerate(ub)]
+            kind = kind + "+colscaled"
         cls, cert = classify_checked([[F(v) for v in r] for r in P], [F(v) for v in c], A, b, G, h,
                                      [None if v is None else F(v) for v in lb], [None if v is None else F(v) for v in ub])
         classes[cls] = classes.get(cls, 0) + 1
@@ -131,7 +141,27 @@ def run(replay=None):
             st = rng.choice([{}, {}, {"eps_abs": 1e-6, "eps_rel": 1e-7}])
             body = ["d.setup " + pr.args(False), "d.solve", "d.result"]
             hist = "direct"
-            if m and rng.random() < 0.25:
+            rh = rng.random()
+            nfin = sum(1 for v in list(lb) + list(ub) if v is not None)
+            if nfin and 0.25 <= rh < 0.45:
+                # the same problem reached by making bounds finite in an update (the number of finite bounds grows, the new ones
+                # not necessarily first in index order), with or without a solve in between and either reuse value
+                drop = [rng.random() < 0.6 for _ in range(2 * n)]
+                if not any(d and v is not None for d, v in zip(drop, list(lb) + list(ub))):
+                    drop = [True] * (2 * n)
+                lb0 = [None if drop[j] else lb[j] for j in range(n)]
+                ub0 = [None if drop[n + j] else ub[j] for j in range(n)]
+                pr0 = problem_from_int(n, p, m, P, c, A, b, G, h, lb0, ub0)
+                body = ["d.setup " + pr0.args(False)] + (["d.solve"] if rng.random() < 0.5 else []) + \
+                       [f"d.update {rng.choice([0, 1, 1])} " + pr.args(False, ["lb", "ub"]), "d.solve", "d.result"]
+                hist = "bounds-history"
+            elif any(any(v != 0 for v in r) for r in P) and 0.45 <= rh < 0.6:
+                # the same problem reached by an update of P (stored with both triangles; same zero pattern: 3 P first)
+                pr0 = problem_from_int(n, p, m, [[3 * F(v) for v in r] for r in P], c, A, b, G, h, lb, ub)
+                body = ["d.setup " + pr0.args(False)] + (["d.solve"] if rng.random() < 0.5 else []) + \
+                       [f"d.update {rng.choice([0, 1])} " + pr.args(False, ["P"]), "d.solve", "d.result"]
+                hist = "P-history"
+            if m and rh < 0.25:
                 # the same problem reached through updates: a row of G first disabled by h_i = +inf, then h made finite together
                 # with G, then G passed alone (F16a/F17 family): the effective problem is the original one
                 i0 = rng.randrange(m)
@@ -187,7 +217,8 @@ def run(replay=None):
         out = impl.get(c["name"])
         if out is None:
             continue
-        st = next((int(l.split()[1]) for l in out if l.startswith("status")), None)
+        sts = [int(l.split()[1]) for l in out if l.startswith("status")]
+        st = sts[-1] if sts else None      # the verdict on the FINAL (effective) problem; earlier solves of a history are on other data
         cls, kind = truth[c["name"]]
         verdicts[f"{cls}:{st}"] = verdicts.get(f"{cls}:{st}", 0) + 1
         bad = None
@@ -207,7 +238,10 @@ def run(replay=None):
     chk.cov["verdict_matrix(class:status)"] = verdicts
     chk.cov["fourier_motzkin_cross_checks_skipped_for_size"] = exactlp.FM_SKIPPED[0]
     chk.cov["settings_and_histories"] = {"fixed_corpus_check_duality_gap_off": sum(1 for c in cases if "fixed" in c["meta"]),
-                                         "h_row_histories": sum(1 for c in cases if c["meta"]["history"] != "direct")}
+                                         "h_row_histories": sum(1 for c in cases if c["meta"]["history"] == "h-row-history"),
+                                         "bounds_histories": sum(1 for c in cases if c["meta"]["history"] == "bounds-history"),
+                                         "P_update_histories": sum(1 for c in cases if c["meta"]["history"] == "P-history"),
+                                         "column_scaled_problems": sum(1 for c in cases if "colscaled" in c["meta"]["kind"]) // 5}
     chk.cov["rule"] = ("integer grid (n<=2, entries -1/0/1, all block presences, LPs, singular P) + constructed degenerate strictly convex, "
                        "Farkas-infeasible (rows, crossing bounds, bounds against an equality/inequality) and recession-unbounded problems, each on "
                        "all five back ends (default and looser tolerances) and, for a quarter of the problems with inequalities, reached "
